@@ -163,6 +163,11 @@ def gen_trace(seed, world, tier, mode=None):
         warm = {"k": "call", "obj": "s0", "meth": meth, "args": [Aw],
                 "tags": {"kind": kind, "m": mw, "n": nw, "cond": cw, "wrong_orientation": False, "scale": scw,
                          "warmup": True}}
+        if R.random() < 0.5:
+            # ... through ONE client array refilled in place (same shape only; otherwise the
+            # executor hands over a new array), so that identity-keyed memos go stale
+            warm["args"] = [dict(Aw, buf="A")]
+            call["args"] = [dict(A, buf="A")]
         steps.append(warm)
     steps.append(call)
     return {"prop": PROP, "seed": seed, "world": world, "mode": "run", "steps": steps}
